@@ -50,6 +50,10 @@ type caseSpec struct {
 	Gates  []gate `json:"gates,omitempty"`
 	Strict bool   `json:"strict,omitempty"`
 	Name   string `json:"name,omitempty"`
+	// Late describes a long-delay session ("gap:6000" = one party calls
+	// Connect 6000 ms after its Join, "start:" = one party joins that late
+	// while the others already wait, "leader:" = the leader's Connect is late).
+	Late string `json:"late,omitempty"`
 }
 
 type gate struct {
@@ -120,6 +124,34 @@ func genCase(r *hxlib.Rng, idx int, tier string) caseSpec {
 	return cs
 }
 
+// genLate builds a session in which one party is late by far more than any
+// plausible timeout; everything else runs without injected delays.
+func genLate(r *hxlib.Rng, idx int, kind string, ms int, tier string) caseSpec {
+	cs := genCase(r, idx, tier)
+	cs.N = 3 + idx%2
+	cs.M = 2
+	cs.Order = cs.Order[:0]
+	for i := 1; i < cs.N; i++ {
+		cs.Order = append(cs.Order, i)
+	}
+	cs.Mode = "conc"
+	cs.Profile = "none"
+	cs.StartUs = make([]int, cs.N)
+	cs.GapUs = make([]int, cs.N)
+	late := 1 + r.Intn(cs.N-1)
+	switch kind {
+	case "gap":
+		cs.GapUs[late] = ms * 1000
+	case "start":
+		cs.StartUs[late] = ms * 1000
+	case "leader":
+		cs.StartUs[0] = ms * 1000
+	}
+	cs.Late = fmt.Sprintf("%s:%d", kind, ms)
+	cs.DeadMs += ms
+	return cs
+}
+
 func main() {
 	if len(os.Args) < 2 {
 		fmt.Fprintln(os.Stderr, "usage: c19 mesh|one [flags]")
@@ -140,10 +172,11 @@ func main() {
 
 func meshMain(args []string) int {
 	var par int
-	var profile string
+	var profile, late string
 	cf, o := hxlib.ParseCommon("c19", args, func(fs *flag.FlagSet) {
 		fs.IntVar(&par, "par", 6, "sessions run in parallel (child processes)")
 		fs.StringVar(&profile, "profile", "", "force one delay profile")
+		fs.StringVar(&late, "late", "", "extra long-delay sessions, e.g. gap:6000,start:12000,leader:6000")
 	})
 	defer o.Close()
 	rng := hxlib.NewRng(cf.Seed)
@@ -163,10 +196,35 @@ func meshMain(args []string) int {
 		cs.Port = 10000 + ((pid*131+i)%2750)*8
 		specs = append(specs, cs)
 	}
+	// long-delay sessions: appended (indices N..) but started first, so that
+	// they sleep while the regular sessions run
+	order := make([]int, 0, cf.N+8)
+	if late != "" {
+		for _, item := range strings.Split(late, ",") {
+			var kind string
+			var ms int
+			if parts := strings.SplitN(item, ":", 2); len(parts) == 2 {
+				kind = parts[0]
+				fmt.Sscanf(parts[1], "%d", &ms)
+			}
+			if ms <= 0 || (kind != "gap" && kind != "start" && kind != "leader") {
+				fmt.Fprintf(os.Stderr, "bad -late item %q\n", item)
+				return 2
+			}
+			i := len(specs)
+			cs := genLate(rng.Fork(), i, kind, ms, cf.Tier)
+			cs.Port = 10000 + ((pid*131+i)%2750)*8
+			specs = append(specs, cs)
+			order = append(order, i)
+		}
+	}
+	for i := 0; i < cf.N; i++ {
+		order = append(order, i)
+	}
 	results := make([]*caseResult, len(specs))
 	var wg sync.WaitGroup
 	sem := make(chan struct{}, par)
-	for i := range specs {
+	for _, i := range order {
 		if cf.Only >= 0 && i != cf.Only {
 			continue
 		}
@@ -192,6 +250,10 @@ func meshMain(args []string) int {
 		o.Count("profile_" + cs.Profile)
 		o.Count("mode_" + cs.Mode)
 		o.Count("end_" + res.End)
+		if cs.Late != "" {
+			o.Count("late_sessions")
+			o.Count("late_" + strings.SplitN(cs.Late, ":", 2)[0])
+		}
 		o.CountN("port_retries", res.Retries)
 		for k, v := range res.Counters {
 			o.CountN(k, v)
@@ -200,6 +262,9 @@ func meshMain(args []string) int {
 			sig, _ := f["sig"].(string)
 			delete(f, "sig")
 			f["case"] = i
+			if cs.Late != "" {
+				f["late"] = cs.Late
+			}
 			f["spec"] = string(spec)
 			f["trace"] = clip(res.Trace, 6000)
 			f["rerun"] = fmt.Sprintf("c19 one -case '%s'", spec)
